@@ -29,7 +29,9 @@ pub fn verif_counts<H: ToIpAddr>(host: H) -> (usize, usize, usize) {
     CURRENT.with(|c| {
         let cell = c.borrow();
         let net = cell.as_ref().expect("no Net installed");
-        let ip = host.try_to_ip_addr(&net.dns).expect("hostname not registered");
+        let ip = host
+            .try_to_ip_addr(&net.dns)
+            .expect("hostname not registered");
         let id = net.fabric.host_for_ip(ip).expect("no host for ip");
         net.fabric.kernel(id).verif_counts()
     })
@@ -40,7 +42,9 @@ pub fn verif_set_ephemeral_range<H: ToIpAddr>(host: H, range: RangeInclusive<u16
     CURRENT.with(|c| {
         let mut cell = c.borrow_mut();
         let net = cell.as_mut().expect("no Net installed");
-        let ip = host.try_to_ip_addr(&net.dns).expect("hostname not registered");
+        let ip = host
+            .try_to_ip_addr(&net.dns)
+            .expect("hostname not registered");
         let id = net.fabric.host_for_ip(ip).expect("no host for ip");
         net.fabric.kernel_mut(id).verif_set_ephemeral_range(range);
     })
